@@ -73,6 +73,7 @@ type Frame struct {
 	parent  *Frame
 	hdrEnv  map[*ssa.BasicBlock]*loopCtx
 	isTop   bool
+	loopLineStart map[*ssa.BasicBlock]int
 }
 
 type loopInfo struct {
@@ -132,6 +133,10 @@ func (e *Enc) val(fr *Frame, v ssa.Value) Term {
 		switch a.kind {
 		case ACell, AStructPtr, AArrMem:
 			return a.ref
+		case AElem:
+			if a.typ != nil && e.isElemPtrType(a.typ) {
+				return e.elemPtr(a.ref, a.idx)
+			}
 		case AField:
 			// address of a field of a heap object: a stable value, function of the object (used to index ghosts such as
 			// the counter of a sync.WaitGroup embedded by value)
@@ -213,6 +218,9 @@ func (e *Enc) addrOf(fr *Frame, v ssa.Value, guard Term, pos string) *Addr {
 	}
 	ref := e.val(fr, v)
 	el := pt.Elem()
+	if e.isElemPtrType(el) {
+		return e.elemAddr(ref, el)
+	}
 	if _, isStruct := el.Underlying().(*types.Struct); isStruct {
 		return &Addr{kind: AStructPtr, ref: ref, typ: el, sort: e.sortOf(el)}
 	}
@@ -335,7 +343,7 @@ func (e *Enc) newFrame(fn *ssa.Function, parent *Frame, path string) *Frame {
 	e.nfresh++
 	fr := &Frame{fn: fn, vals: map[ssa.Value]Term{}, tuples: map[ssa.Value][]Term{}, addrs: map[ssa.Value]*Addr{},
 		reach: map[*ssa.BasicBlock]Term{}, out: map[*ssa.BasicBlock]*State{}, names: map[string][]ssa.Value{},
-		hdrEnv: map[*ssa.BasicBlock]*loopCtx{}, parent: parent, path: path}
+		hdrEnv: map[*ssa.BasicBlock]*loopCtx{}, parent: parent, path: path, loopLineStart: map[*ssa.BasicBlock]int{}}
 	if parent != nil {
 		fr.depth = parent.depth + 1
 		fr.suffix = fmt.Sprintf("_i%d", e.nfresh)
@@ -457,6 +465,16 @@ func (e *Enc) run(fr *Frame, args []Term, st0 *State, guard Term) []*Exit {
 					fr.names[id] = append(fr.names[id], d.X)
 				}
 			}
+			if d, ok := ins.(*ssa.DebugRef); ok && d.IsAddr {
+				// an address-taken local of struct type: the name denotes the object (used like a pointer in contracts)
+				if al, isAlloc := d.X.(*ssa.Alloc); isAlloc {
+					if _, isStruct := al.Type().Underlying().(*types.Pointer).Elem().Underlying().(*types.Struct); isStruct {
+						if id := identName(d); id != "" {
+							fr.names[id] = append(fr.names[id], d.X)
+						}
+					}
+				}
+			}
 			if phi, ok := ins.(*ssa.Phi); ok && phi.Comment != "" {
 				fr.names[phi.Comment] = append(fr.names[phi.Comment], phi)
 			}
@@ -503,6 +521,17 @@ func (e *Enc) run(fr *Frame, args []Term, st0 *State, guard Term) []*Exit {
 			st = e.mergeStates(predConds, sts)
 		}
 		fr.reach[b] = reach
+		if fr.isTop {
+			// innermost enclosing loop decides which earlier quantified facts are still relevant
+			e.loopStart = 0
+			for h, l2 := range fr.loops {
+				if l2.body[b] && h != b {
+					if s0, ok := fr.loopLineStart[h]; ok && s0 > e.loopStart {
+						e.loopStart = s0
+					}
+				}
+			}
+		}
 
 		li := fr.loops[b]
 		// ---- phis
@@ -565,6 +594,31 @@ func (e *Enc) run(fr *Frame, args []Term, st0 *State, guard Term) []*Exit {
 				e.backEdge(fr, b, s, edgeCond[[2]*ssa.BasicBlock{b, s}], st)
 			}
 		}
+		// iteration ends of loops with step clauses: the edge into the loop's exit join (the block where all ways out of
+		// the loop meet), so that the code of `break` branches - which is not part of the natural loop - is included
+		for _, h := range sortedHeaders(fr.loops) {
+			li := fr.loops[h]
+			lc := fr.hdrEnv[h]
+			if lc == nil || lc.spec == nil || len(lc.spec.Steps) == 0 {
+				continue
+			}
+			join, region := exitJoin(fr.fn, li, order, isBack)
+			if !li.body[b] && !region[b] {
+				continue
+			}
+			for si, s := range b.Succs {
+				if s == join && !li.body[s] {
+					if c, ok := edgeCond[[2]*ssa.BasicBlock{b, s}]; ok {
+						e.stepObligations(fr, h, c, st, fmt.Sprintf("exit-b%d-%d", b.Index, si))
+					}
+				}
+			}
+			if len(b.Instrs) > 0 {
+				if _, isRet := b.Instrs[len(b.Instrs)-1].(*ssa.Return); isRet {
+					e.stepObligations(fr, h, reach, st, fmt.Sprintf("return-b%d", b.Index))
+				}
+			}
+		}
 	}
 	return fr.exits
 }
@@ -593,4 +647,78 @@ func (e *Enc) fieldPtr(key string, ref Term) Term {
 	t := T(SInt, "(%s %s)", fn, ref.S)
 	e.assume(tTrue, T(SBool, "(> %s 0)", t.S))
 	return t
+}
+
+func sortedHeaders(m map[*ssa.BasicBlock]*loopInfo) []*ssa.BasicBlock {
+	var hs []*ssa.BasicBlock
+	for h := range m {
+		hs = append(hs, h)
+	}
+	sort.Slice(hs, func(i, j int) bool { return m[hs[i]].ordinal < m[hs[j]].ordinal })
+	return hs
+}
+
+// exitJoin: the block where all paths leaving the loop meet (nil if there is none) and the blocks between the loop
+// and that block (the code of break branches).
+func exitJoin(fn *ssa.Function, li *loopInfo, order []*ssa.BasicBlock, isBack map[[2]*ssa.BasicBlock]bool) (*ssa.BasicBlock, map[*ssa.BasicBlock]bool) {
+	var targets []*ssa.BasicBlock
+	seenT := map[*ssa.BasicBlock]bool{}
+	for b := range li.body {
+		for _, s := range b.Succs {
+			if !li.body[s] && !seenT[s] {
+				seenT[s] = true
+				targets = append(targets, s)
+			}
+		}
+	}
+	reachFrom := func(t *ssa.BasicBlock) map[*ssa.BasicBlock]bool {
+		r := map[*ssa.BasicBlock]bool{}
+		stack := []*ssa.BasicBlock{t}
+		for len(stack) > 0 {
+			b := stack[len(stack)-1]
+			stack = stack[:len(stack)-1]
+			if r[b] || li.body[b] {
+				continue
+			}
+			r[b] = true
+			for _, s := range b.Succs {
+				if !isBack[[2]*ssa.BasicBlock{b, s}] {
+					stack = append(stack, s)
+				}
+			}
+		}
+		return r
+	}
+	var sets []map[*ssa.BasicBlock]bool
+	for _, t := range targets {
+		sets = append(sets, reachFrom(t))
+	}
+	var join *ssa.BasicBlock
+	for _, b := range order {
+		if li.body[b] {
+			continue
+		}
+		all := len(sets) > 0
+		for _, r := range sets {
+			if !r[b] {
+				all = false
+			}
+		}
+		if all {
+			join = b
+			break
+		}
+	}
+	region := map[*ssa.BasicBlock]bool{}
+	if join != nil {
+		after := reachFrom(join)
+		for _, r := range sets {
+			for b := range r {
+				if !after[b] {
+					region[b] = true
+				}
+			}
+		}
+	}
+	return join, region
 }
